@@ -185,9 +185,15 @@ func c01Harness(cfg *Cfg) func(x *mc.Exec) {
 			case 3: // every period 1..64 (matches longer than 258 at every small distance, the re-seeding of the hash after capped matches)
 				pp := 1 + x.Choose(64, "period")
 				n := []int{600, 9000, 70000}[x.Choose(3, "size")]
+				if !cfg.Thorough && n == 70000 && pp > 8 && pp != 64 {
+					return // quick tier: the 70000-byte size for periods 1..8 and 64 only
+				}
 				d = pieces.Per(n, pp, cfg.Seed)
 				nm = fmt.Sprintf("per(%d,%d)", pp, n)
 			case 4: // tokens with the maximal number of bits, back to back
+				if k.Window() != 32768 {
+					return // copies from 24577..32768 back are out of reach of the 4 KiB window
+				}
 				v := x.Choose(48, "variant")
 				d = pieces.FarCopies(v, cfg.Seed)
 				nm = fmt.Sprintf("farcopies(%d)", v)
@@ -202,6 +208,9 @@ func c01Harness(cfg *Cfg) func(x *mc.Exec) {
 			case 2:
 				kk := 2 + x.Choose(39, "fib")
 				n := []int{3000, 70000}[x.Choose(2, "size")]
+				if !cfg.Thorough && n == 70000 && kk%4 != 0 {
+					return // quick tier: the 70000-byte size for every fourth alphabet size
+				}
 				d = pieces.Fib(n, kk, cfg.Seed)
 				nm = fmt.Sprintf("fib(%d,%d)", kk, n)
 			}
